@@ -87,6 +87,8 @@ def directed_family(quick):
                 # all four arity shapes for up to 2 obstructions; for 3-4 obstructions the two
                 # shapes that matter for index bookkeeping (a 1->1 box and a scalar)
                 menu = obst if nl + nr <= 2 else [(1, 1), (0, 0)]
+                if nl + nr == 1:      # one obstruction of every small arity, wider than the cap beside it
+                    menu = obst + [(1, 2), (1, 3), (0, 2), (0, 3), (2, 1), (2, 3)]
                 if not quick and nl + nr == 3:
                     menu = obst
                 for shapes in itertools.product(menu, repeat=nl + nr):
@@ -104,6 +106,45 @@ def directed_family(quick):
                                         out.append(r)
     out += cup_over_cap_family()
     out += equal_caps_family()
+    out += wide_leg_family()
+    return out
+
+
+def wide_leg_family():
+    """A box with one input and k = 1..3 outputs on the wire that enters the cup (one output feeds the
+    cup, the others continue next to the snake), right beside the cap; alone, or with an effect or
+    a state on the outer side."""
+    out = []
+    for z in (-1, 0, 1):
+        a, ar, al = atom_str(NAME, z), atom_str(NAME, z + 1), atom_str(NAME, z - 1)
+        for k_out in (1, 2, 3):
+            extra = ("n",) * (k_out - 1)
+            for outer in (None, "effect", "state"):
+                # right snake:  Cap(a, al) @ Id(a)  >>  Id(a @ al) @ h  >>  Id(a) @ Cup(al, a) @ Id(extra)
+                lay = [(("cap", a, al), 0)]
+                lw = 0
+                if outer == "effect":      # an extra wire on the far left, eaten between cap and cup
+                    dom = ("n", a)
+                    lay = [(("cap", a, al), 1), (("box", "e", ("n",), ()), 0)]
+                elif outer == "state":
+                    dom = (a,)
+                    lay = [(("cap", a, al), 0), (("box", "u", (), ("n",)), 0)]
+                    lw = 1
+                else:
+                    dom = (a,)
+                lay += [(("box", "h", (a,), (a,) + extra), lw + 2), (("cup", al, a), lw + 1)]
+                out.append(("rigid", dom, tuple(lay)))
+                # left snake:  Id(a) @ Cap(ar, a)  >>  h @ Id(ar @ a)  >>  Id(extra) @ Cup(a, ar) @ Id(a)
+                lay = [(("cap", ar, a), 1), (("box", "h", (a,), extra + (a,)), 0), (("cup", a, ar), len(extra))]
+                dom = (a,)
+                if outer == "effect":
+                    dom = (a, "n")
+                    lay = [(("cap", ar, a), 1), (("box", "e", ("n",), ()), 3), (("box", "h", (a,), extra + (a,)), 0),
+                           (("cup", a, ar), len(extra))]
+                elif outer == "state":
+                    lay = [(("cap", ar, a), 1), (("box", "u", (), ("n",)), 3), (("box", "h", (a,), extra + (a,)), 0),
+                           (("cup", a, ar), len(extra))]
+                out.append(("rigid", dom, tuple(lay)))
     return out
 
 
@@ -293,6 +334,8 @@ def check_normalize(params):
     recipe = build_norm(params["recipe"])
     left = params.get("left", False)
     d = build.build(recipe)
+    if params.get("dagger"):     # the same diagram reached through the library's own dagger
+        d = d[::-1]
     m0 = model_of(d)
     n = len(d)
     horizon = 6 * n * n + 12
@@ -415,9 +458,12 @@ CASES = {k: safe("C07", f) for k, f in {"normalize": check_normalize}.items()}
 
 def _worker(shard):
     part = Part()
-    for recipe, mats in shard:
+    for item in shard:
+        recipe, mats = item[:2]
         for left in (False, True):
             params = dict(recipe=recipe, left=left, matrices=mats)
+            if len(item) > 2 and item[2]:
+                params["dagger"] = True
             res = CASES["normalize"](params)
             part.count("states")
             st = params.pop("_status", None)
@@ -471,5 +517,7 @@ def run(ctx):
     fam = directed_family(ctx.quick)
     ctx.note("directed_family", "%d snake diagrams with interleaved obstructions" % len(fam))
     items += [(r, True) for r in fam]
+    # the daggers of the directed family (cups and caps produced by the library's own dagger)
+    items += [(r, True, True) for r in fam[:: (2 if ctx.quick else 1)]]
     for p in pmap(_worker, build.shards(items, 128)):
         ctx.merge(p)
